@@ -3067,6 +3067,12 @@ struct Explorer {
         vs.push_back(x);
       }
       if (props.count("C14")) CheckSpelledArgs(op, r, w.disk, d, &vs);
+      if (props.count("C14") && op.compare_output_with_twin && twin_res && !w.abnormal && r.out != twin_res->out) {
+        Violation x; x.prop = "C14"; x.clause = "tool-output-depends-on-spelling";
+        x.detail = "'" + op.label + "' prints {" + r.out.substr(0, 200) + "} here and {" + twin_res->out.substr(0, 200) +
+                   "} in the project that spells every path canonically";
+        vs.push_back(x);
+      }
       if (props.count("C08")) CheckLogHandling(op, r, w.disk, d, &vs);
       if (props.count("C09")) CheckDepsLogHandling(op, r, w.disk, d, &vs);
       if (op.tool && op.tool_kind.compare(0, 5, "clean") == 0) {
